@@ -162,6 +162,10 @@ const dateWithUTCTimeLayout = "20060102T150405Z"
 type dateWithUTCTime time.Time
 
 func (t *dateWithUTCTime) UnmarshalText(b []byte) error {
+	// time.Parse tolerates fractional seconds even if the layout has none
+	if len(b) != len(dateWithUTCTimeLayout) {
+		return fmt.Errorf("caldav: invalid date with UTC time: %q", string(b))
+	}
 	tt, err := time.Parse(dateWithUTCTimeLayout, string(b))
 	if err != nil {
 		return err
